@@ -42,7 +42,6 @@ func (e *Exec) smtTextW(o *Obligation, withModel bool, weak bool) string {
 	}
 	b.WriteString("(set-logic ALL)\n")
 	b.WriteString(e.p.U.Decls())
-	b.WriteString("(declare-const hash_zero Hash8)\n")
 	for _, d := range e.decls[:o.NDecl] {
 		b.WriteString(d)
 		b.WriteByte('\n')
@@ -157,6 +156,12 @@ func solveOne(e *Exec, o *Obligation, workDir string, timeoutS int) {
 	txt := e.smtText(o, false)
 	os.WriteFile(file, []byte(txt), 0o644)
 	o.SMTPath = file
+	if o.ExpectSat {
+		// vacuity guard: only an unsat answer is a failure; do not spend the portfolio on it
+		st, out, dur := runSolver(solvers[0], file, 3)
+		o.Status, o.Solver, o.Output, o.TimeS = st, solvers[0].Name, out, total+dur
+		return
+	}
 	for i, s := range solvers {
 		t := timeoutS
 		if i > 0 && t > 10 {
